@@ -6,6 +6,7 @@ import re
 from ..core import astutil as A
 from ..core import bashlex as B
 from ..core import cfg as CFG
+from ..core import match as M
 from ..core.model import dotted
 
 META = {
@@ -57,6 +58,61 @@ def arm_for(arms, word):
             if fnmatch.fnmatchcase(word, pat) or fnmatch.fnmatchcase(word + " x", pat) or pat.rstrip("*").rstrip() == word:
                 return a
     return None
+
+
+def handler_table(fn):
+    """(dispatch Match | None, {daemon word: handler expression}) of generic_handler.  The table is found by its ROLE —
+    the mapping the command word is looked up in and called through — not by its local name."""
+    d = M.one(fn.node, "if $cmd in $h:\n    $h[$cmd](self, ...)")
+    tbl = {}
+    if d is None:
+        return None, tbl
+    h = d["h"]
+
+    def resolve(v):
+        if isinstance(v, ast.Name):
+            src = [x for _, x, _ in A.assignments(fn.node, v.id)]
+            if len(src) == 1:
+                return src[0]
+        return v
+
+    for t_, v, st in A.assignments(fn.node):
+        if isinstance(t_, ast.Name) and t_.id == h and isinstance(v, ast.Dict):
+            for k, val in zip(v.keys, v.values):
+                if isinstance(k, ast.Constant) and isinstance(k.value, str):
+                    tbl[k.value] = resolve(val)
+        if isinstance(t_, ast.Subscript) and isinstance(t_.value, ast.Name) and t_.value.id == h:
+            if isinstance(t_.slice, ast.Constant) and isinstance(t_.slice.value, str):
+                tbl[t_.slice.value] = resolve(v)
+            elif isinstance(t_.slice, ast.Name):
+                loop = next((p for p in A.parents(st) if isinstance(p, ast.For) and isinstance(p.target, ast.Name) and p.target.id == t_.slice.id), None)
+                if loop is not None and isinstance(loop.iter, (ast.Tuple, ast.List)):
+                    for e in loop.iter.elts:
+                        if isinstance(e, ast.Constant) and isinstance(e.value, str):
+                            tbl[e.value] = resolve(v)
+    return d, tbl
+
+
+HANDLER_KW = ("additional_commands", "extra_handlers", "extra_commands")
+
+
+def extra_handler_words(tree):
+    """command words registered in a mapping that flows into generic_handler's additional_commands: the mapping is a
+    parameter with one of the handler keyword names, or a local passed under one of those keywords"""
+    out = set()
+    for fn in ast.walk(tree):
+        if not isinstance(fn, (ast.FunctionDef, ast.AsyncFunctionDef)):
+            continue
+        flows = {a.arg for a in fn.args.posonlyargs + fn.args.args + fn.args.kwonlyargs if a.arg in HANDLER_KW}
+        for c in A.calls(fn):
+            for k in c.keywords:
+                if k.arg in HANDLER_KW and isinstance(k.value, ast.Name):
+                    flows.add(k.value.id)
+        for n in A.walk(fn):
+            if isinstance(n, ast.Subscript) and isinstance(n.ctx, ast.Store) and isinstance(n.value, ast.Name) and n.value.id in flows \
+                    and isinstance(n.slice, ast.Constant) and isinstance(n.slice.value, str):
+                out.add(n.slice.value)
+    return out
 
 
 def run(ctx):
@@ -112,20 +168,12 @@ def run(ctx):
     ctx.check("R1", PROC, len(expected) >= 8, f"requests-matched:{len(expected)}", f"{len(expected)} (loop, request) pairs matched")
     # daemon-initiated messages have Python handlers
     gh = P.func(PROC, "EbuildProcessor.generic_handler")
-    handlers = set()
-    for t_, v, _ in A.assignments(gh.node):
-        if isinstance(t_, ast.Subscript) and A.unparse(t_.value) == "handlers" and isinstance(t_.slice, ast.Constant):
-            handlers.add(t_.slice.value)
-        if A.unparse(t_) == "handlers" and isinstance(v, ast.Dict):
-            handlers |= {k.value for k in v.keys if isinstance(k, ast.Constant)}
-    for n in A.walk(gh.node):
-        if isinstance(n, ast.For) and isinstance(n.iter, ast.Tuple) and any(isinstance(s, ast.Assign) and "handlers[" in A.unparse(s.targets[0]) for s in n.body):
-            handlers |= {e.value for e in n.iter.elts if isinstance(e, ast.Constant)}
+    disp, table = handler_table(gh)
+    handlers = set(table)
     extra = set()
     for mod in ("pkgcore.ebuild.processor", "pkgcore.ebuild.ebd"):
-        for n in ast.walk(P.module(mod).node if hasattr(P.module(mod), "node") else ast.parse(P.module(mod).src)):
-            if isinstance(n, ast.Subscript) and isinstance(n.slice, ast.Constant) and isinstance(n.slice.value, str) and A.unparse(n.value) in ("commands", "additional_commands", "extra_handlers"):
-                extra.add(n.slice.value)
+        extra |= extra_handler_words(P.module(mod).tree)
+        for n in ast.walk(P.module(mod).tree):
             if isinstance(n, ast.Call) and A.call_attr(n) == "setdefault" and n.args and isinstance(n.args[0], ast.Constant) and isinstance(n.args[0].value, str) and n.args[0].value.startswith("request_"):
                 extra.add(n.args[0].value)
             if isinstance(n, ast.Dict):
@@ -177,11 +225,12 @@ def run(ctx):
         d = [a for a in cb.arms if a.patterns == ["*"]]
         ok = len(d) == 1 and any(c.name == "die" for c in B.commands(d[0].body)) and cb.arms[-1] is d[0]
         ctx.check("R3", f"{DAEMON}:{fn}", ok, f"bash-default-dies:{fn}", f"{fn}: an unknown command dies", f"{fn} has no final `*) die` arm: an unknown command is silently skipped / misread", node=cb.line)
-    t = A.unparse(gh.node)
-    ctx.check("R3", gh, "if cmd in handlers:" in t and "raise UnhandledCommand(line)" in t, "python-default-raises", "generic_handler raises UnhandledCommand for an unknown daemon message")
-    ctx.check("R3", gh, "raise InternalError" in t and "if not cmd:" in t, "python-empty-line", "an empty line (daemon gone) is an InternalError, not a command")
+    # the dispatch `if cmd in T: T[cmd](self, ...)` (found above by role) has an else that raises
+    E = dict(disp.env) if disp else {}
+    ctx.check("R3", gh, disp is not None and M.has(gh.node, "if $cmd in $h:\n    $h[$cmd](self, ...)\nelse:\n    raise UnhandledCommand($_)", E), "python-default-raises", "generic_handler raises UnhandledCommand for an unknown daemon message")
+    ctx.check("R3", gh, disp is not None and M.has(gh.node, "if not $cmd:\n    raise InternalError(...)\nif $cmd in $h:\n    $h[$cmd](self, ...)", E), "python-empty-line", "an empty line (daemon gone) is an InternalError, not a command")
     uc = [f for f in ("chuck_UnhandledCommand",) if P.func_opt(PROC, f) is not None]
-    ctx.check("R3", gh, bool(uc) and all(x in t for x in ("'prob'", "'env_receiving_failed'", "'failed'")), "failure-notices-raise", "daemon failure notices (prob, env_receiving_failed, failed) end the session")
+    ctx.check("R3", gh, bool(uc) and all(w in table and A.unparse(table[w]) == "chuck_UnhandledCommand" for w in ("prob", "env_receiving_failed", "failed")), "failure-notices-raise", "daemon failure notices (prob, env_receiving_failed, failed) end the session")
     ctx.floor("R3", 5)
 
     # ---- R4 async expectations -------------------------------------------------------------------------------------
@@ -203,10 +252,13 @@ def run(ctx):
     ctx.check("R4", ca, bool(clears) and p is None, "queue-cleared-on-every-path", "after the replies were read, the queue is emptied on every path (match or mismatch)",
               "_consume_async_expects can return after reading the replies WITHOUT emptying the queue (mismatch path): the stale expectations are counted again by the next expect(), which then reads more lines than the daemon will ever send — both sides wait to read", node=ca.node, witness=g.fmt_path(p) if p else None)
     ex = P.func(PROC, "EbuildProcessor.expect")
-    t = A.unparse(ex.node)
-    ctx.check("R4", ex, "if async_req:\n        self._outstanding_expects.append((flush, want))\n        return True" in t, "async-queues", "an async expectation is queued, nothing is read")
-    ctx.check("R4", ex, "if not self._outstanding_expects:" in t and "self._outstanding_expects.append((flush, want))\n    return self._consume_async_expects()" in t, "sync-drains-queue-first", "a synchronous expect with a non-empty queue joins it and drains everything in order")
-    ctx.check("R4", gh, "if self._outstanding_expects and (not self._consume_async_expects()):" in A.unparse(gh.node) and "raise UnhandledCommand('expects out of alignment')" in A.unparse(gh.node), "handler-drains-queue-first", "generic_handler drains the queue before reading commands")
+    ctx.check("R4", ex, M.has(ex.node, "if async_req:\n    self._outstanding_expects.append((flush, want))\n    return True"), "async-queues", "an async expectation is queued, nothing is read")
+    # at the top level of expect(): the empty-queue branch, then (queue not empty) join the queue and drain it
+    drain = [m for m in M.find(ex.node, "if not self._outstanding_expects:\n    ...\nself._outstanding_expects.append((flush, want))\nreturn self._consume_async_expects()") if m.node in ex.node.body]
+    ctx.check("R4", ex, bool(drain), "sync-drains-queue-first", "a synchronous expect with a non-empty queue joins it and drains everything in order")
+    hd = M.one(gh.node, "if self._outstanding_expects and (not self._consume_async_expects()):\n    raise UnhandledCommand($_)")
+    reads = [c.lineno for c in A.calls(gh.node) if A.unparse(c.func) == "self.read"]
+    ctx.check("R4", gh, hd is not None and bool(reads) and hd.node.lineno < min(reads), "handler-drains-queue-first", "generic_handler drains the queue before reading commands")
     ctx.floor("R4", 5)
 
     # ---- R5 abandoning a pending daemon request --------------------------------------------------------------------------
